@@ -4,7 +4,9 @@
                                                   for EVERY group and every placement inside the group
      (f) timestamps inside a group, lifted to the document
      (g) (f) and the family switch hold in every non-histogram family after ANY prefix: the exemption of native-histogram
-         samples from the group block belongs to the line, it does not outlive the histogram family.
+         samples from the group block belongs to the line, it does not outlive the histogram family.  In the repaired
+         source (flag fix_nhsfx, fixes/C15-om-native-foreign-name.diff) the family switch holds in histogram families
+         too: only a native sample named like the family in progress is exempt, one of a foreign name is rejected.
    Statements only.  Model: model/OMParser.v; proofs: proofs/OMRulesProofs.v (and proofs/OMRulesLines.v for the concrete
    metadata lines).  As in C15.v every theorem holds for ARBITRARY oracles and both settings of every repair flag, and
    `is_err r` = exists e, r = Err e.
@@ -403,14 +405,44 @@ Section C15b.
     eapply timestamps_two_lines_any_flag with (s1 := s1) (s2 := s2) (gd1 := gd1) (gd2 := gd2); eassumption.
   Qed.
 
-  (* the family switch: a sample whose name the family in progress (not a histogram) does not allow is never attached
-     to it.  The family is closed (flush: its closing checks run, its names are recorded as seen) and the sample starts
-     an unknown family of its own name - which is what makes an interleaved family end in a name clash (b). *)
+  (* the family switch: a sample whose name the family in progress does not allow is never attached to it.  The family
+     is closed (flush: its closing checks run, its names are recorded as seen) and the sample starts an unknown family
+     of its own name - which is what makes an interleaved family end in a name clash (b).
+     In every family that is not a histogram, for every setting of the flags; in the repaired source (fix_nhsfx = true)
+     also in a histogram family, as soon as the sample does not carry the family's own name - the one exemption left is
+     the native-histogram sample named like the family itself.  (Pinned source: every native sample was exempt, see
+     C15_native_sample_foreign_family_orig_refuted.)  The line was then not read as a native histogram. *)
   Theorem C15b_foreign_sample_switches_family : forall st line s nh st' out,
-    om_typ_is (st_typ st) OM_histogram = false -> read_sample (st_typ st) line = Ok (s, nh) ->
+    om_typ_is (st_typ st) OM_histogram = false \/ (fix_nhsfx = true /\ st_name st <> Some (os_name s)) ->
+    read_sample (st_typ st) line = Ok (s, nh) ->
     mem_str (os_name s) (st_allowed st) = false -> sample_line st line = Ok (st', out) ->
-    st_allowed st' = [os_name s] /\ st_typ st' = Some OM_unknown /\ exists seen', flush st = Ok (out, seen').
+    st_allowed st' = [os_name s] /\ st_typ st' = Some OM_unknown /\ (exists seen', flush st = Ok (out, seen')) /\ nh = false.
   Proof. intros. eapply foreign_sample_switches_family; eassumption. Qed.
+
+  (* repaired source: a line read as a native-histogram sample whose name is neither allowed by the family in progress
+     nor that family's own name is rejected - at the line, and at any position of a document whatever follows:
+     no interleaved family, no late metadata, no stray name through a native sample *)
+  Theorem C15b_foreign_native_sample_rejected : forall st line s,
+    fix_nhsfx = true -> read_sample (st_typ st) line = Ok (s, true) ->
+    mem_str (os_name s) (st_allowed st) = false -> st_name st <> Some (os_name s) ->
+    is_err (sample_line st line).
+  Proof. intros. eapply foreign_native_sample_rejected; eassumption. Qed.
+
+  Theorem C15b_foreign_native_sample_document : forall text pre l post st acc s,
+    fix_nhsfx = true -> om_lines text = pre ++ l :: post -> prefix st0 pre [] = Ok (st, acc) ->
+    is_sample_line l = true -> read_sample (st_typ st) l = Ok (s, true) ->
+    mem_str (os_name s) (st_allowed st) = false -> st_name st <> Some (os_name s) ->
+    is_err (parse text).
+  Proof.
+    intros text pre l post st acc s F H. intros. unfold om_parse. rewrite H.
+    eapply foreign_native_sample_document; eassumption.
+  Qed.
+
+  (* ... hence an attached native-histogram sample carries the name of the family in progress (or an allowed name) *)
+  Theorem C15b_native_sample_attached_own_name : forall st line s st' out,
+    fix_nhsfx = true -> read_sample (st_typ st) line = Ok (s, true) -> sample_line st line = Ok (st', out) ->
+    st_name st = Some (os_name s) \/ mem_str (os_name s) (st_allowed st) = true.
+  Proof. intros. eapply native_sample_attached_own_name; eassumption. Qed.
 End C15b.
 
 (* ---- non-vacuity: concrete documents, lines, states and sample lists meeting the hypotheses of each theorem, evaluated with
@@ -988,11 +1020,14 @@ Proof.
 Qed.
 Print Assumptions C15_later_exposure_orig_refuted.
 
-(* KNOWN FINDING (known_findings.txt: c15_native_sample_foreign_name).  C15b_foreign_sample_switches_family needs
-   "not a histogram": inside a histogram family a line that reads as a native histogram is attached to the family in
-   progress WHATEVER ITS NAME (source: `if sample.name not in allowed_names and not is_nh`).  So a native sample of
-   family a may sit inside family b (interleaved families), and the metadata of a may follow a's sample when that
-   sample stands in another histogram family (late metadata): both documents are accepted. *)
+(* FIXED (fixes/C15-om-native-foreign-name.diff; known_findings.txt: fixed).  Pinned source: inside a histogram family
+   a line that reads as a native histogram is attached to the family in progress WHATEVER ITS NAME (source:
+   `if sample.name not in allowed_names and not is_nh`).  So a native sample of family a may sit inside family b
+   (interleaved families: b then holds the samples b and a), the metadata of a may follow a's sample when that sample
+   stands in another histogram family (late metadata), and a name nobody declared is filed under a: all three documents
+   are accepted.  Repaired source (fix_nhsfx): only the native sample named like the family in progress is exempt from
+   the family switch; all three documents are rejected (C15b_foreign_native_sample_document, whose hypotheses the
+   interleaved document meets).  tparse_nf0 / tprefix_nf0 = the toy instance with fix_nhsfx = false. *)
 Definition ex_native_foreign := "# TYPE a histogram
 a {count:1,sum:1,schema:0,zero_threshold:0,zero_count:0}
 # TYPE b histogram
@@ -1006,26 +1041,73 @@ a {count:2,sum:1,schema:0,zero_threshold:0,zero_count:0}
 # TYPE a histogram
 # EOF
 "%string.
+Definition ex_native_stray := "# TYPE a histogram
+zzz {count:1,sum:1,schema:0,zero_threshold:0,zero_count:0}
+# EOF
+"%string.
 Definition ex_nf_pre := [L "# TYPE a histogram"; L "a {count:1,sum:1,schema:0,zero_threshold:0,zero_count:0}";
                          L "# TYPE b histogram"; L "b {count:1,sum:1,schema:0,zero_threshold:0,zero_count:0}"].
 Definition ex_nf_line := L "a {count:2,sum:1,schema:0,zero_threshold:0,zero_count:0}".
-Theorem C15_native_sample_foreign_family_refuted :
-  (exists fams, tparse ex_native_foreign = Ok fams /\ length fams = 2%nat)
-  /\ (exists fams, tparse ex_native_late_type = Ok fams /\ length fams = 2%nat)
+Definition tparse_nf0 := toy_parse true false true true true true.
+Definition tprefix_nf0 := om_prefix false true true false true true true true true true Z toy_int toy_float toy_int
+    Z.ltb Z.eqb (fun _ => false) (fun _ => true) (fun z => (2 ^ 1024 <=? Z.abs z)%Z) 0%Z 1%Z (10 ^ 400)%Z
+    (fun _ _ => None) toy_word is_space_ascii is_digit.
+(* (family name, names of its samples) of every returned family *)
+Definition nf_shape (r : res (list (om_family Z))) : res (list (str * list str)) :=
+  match r with
+  | Ok fams => Ok (map (fun f => (of_name f, map (@os_name Z) (of_samples f))) fams)
+  | Err e => Err e
+  end.
+Theorem C15_native_sample_foreign_family_orig_refuted :
+  (* pinned model: accepted, the stray sample filed under the family in progress *)
+  nf_shape (tparse_nf0 ex_native_foreign) = Ok [(L "a", [L "a"]); (L "b", [L "b"; L "a"])]
+  /\ nf_shape (tparse_nf0 ex_native_late_type) = Ok [(L "b", [L "b"; L "a"]); (L "a", [])]
+  /\ nf_shape (tparse_nf0 ex_native_stray) = Ok [(L "a", [L "zzz"])]
+  /\ (exists st acc, tprefix_nf0 om_st_init (ex_nf_pre ++ [ex_nf_line]) [] = Ok (st, acc)
+                     /\ st_name st = Some (L "b") /\ map (@os_name Z) (st_samples st) = [L "a"; L "b"])
+  (* repaired model: rejected *)
+  /\ tparse ex_native_foreign = Err ValueError
+  /\ tparse ex_native_late_type = Err ValueError
+  /\ tparse ex_native_stray = Err ValueError
+  (* the interleaved document meets the hypotheses of C15b_foreign_native_sample_document *)
   /\ tlines ex_native_foreign = ex_nf_pre ++ ex_nf_line :: [OM_EOF]
   /\ tprefix om_st_init ex_nf_pre [] = Ok (tstate ex_nf_pre, tacc ex_nf_pre)
+  /\ is_sample_line ex_nf_line = true
   /\ (exists s, tread (st_typ (tstate ex_nf_pre)) ex_nf_line = Ok (s, true)
-                /\ mem_str (os_name s) (st_allowed (tstate ex_nf_pre)) = false)
-  /\ st_name (tstate (ex_nf_pre ++ [ex_nf_line])) = Some (L "b")
-  /\ length (st_samples (tstate (ex_nf_pre ++ [ex_nf_line]))) = 2%nat.
+                /\ mem_str (os_name s) (st_allowed (tstate ex_nf_pre)) = false
+                /\ st_name (tstate ex_nf_pre) <> Some (os_name s)).
 Proof.
-  refine (conj _ _); [eexists; vm_compute; split; reflexivity|].
-  refine (conj _ _); [eexists; vm_compute; split; reflexivity|].
-  refine (conj _ _); [fin|]. refine (conj _ _); [fin|].
-  refine (conj _ _); [eexists; vm_compute; split; reflexivity|].
-  split; fin.
+  do 3 (refine (conj _ _); [vm_compute; reflexivity|]).
+  refine (conj _ _); [eexists; eexists; vm_compute; repeat split; reflexivity|].
+  do 6 (refine (conj _ _); [vm_compute; reflexivity|]).
+  eexists. split; [vm_compute; reflexivity|]. split; [vm_compute; reflexivity|]. vm_compute. discriminate.
 Qed.
-Print Assumptions C15_native_sample_foreign_family_refuted.
+Print Assumptions C15_native_sample_foreign_family_orig_refuted.
+
+(* the family switch inside a histogram family (repaired source): a float sample of a foreign name closes it *)
+Definition ex_hist_switch := [L "# TYPE a histogram"; L "a {count:1,sum:1,schema:0,zero_threshold:0,zero_count:0}"].
+Example C15b_foreign_sample_switches_family_in_histogram_nonvacuous :
+  tprefix om_st_init ex_hist_switch [] = Ok (tstate ex_hist_switch, tacc ex_hist_switch)
+  /\ om_typ_is (st_typ (tstate ex_hist_switch)) OM_histogram = true
+  /\ st_name (tstate ex_hist_switch) <> Some (os_name (tsample (Some OM_histogram) (L "b 1")))
+  /\ tread (st_typ (tstate ex_hist_switch)) (L "b 1") = Ok (tsample (Some OM_histogram) (L "b 1"), false)
+  /\ mem_str (os_name (tsample (Some OM_histogram) (L "b 1"))) (st_allowed (tstate ex_hist_switch)) = false
+  /\ (exists st' out, om_sample_line false true true true true true true true true Z toy_int toy_float toy_int
+                        Z.ltb Z.eqb (fun _ => false) (fun _ => true) (fun z => (2 ^ 1024 <=? Z.abs z)%Z) 0%Z 1%Z (10 ^ 400)%Z
+                        (fun _ _ => None) toy_word is_space_ascii is_digit (tstate ex_hist_switch) (L "b 1") = Ok (st', out))
+  (* and the exemption that is left: the native sample named like the family is attached *)
+  /\ (exists s st' out, tread (Some OM_histogram) (L "a {count:2,sum:1,schema:0,zero_threshold:0,zero_count:0}") = Ok (s, true)
+        /\ om_sample_line false true true true true true true true true Z toy_int toy_float toy_int
+             Z.ltb Z.eqb (fun _ => false) (fun _ => true) (fun z => (2 ^ 1024 <=? Z.abs z)%Z) 0%Z 1%Z (10 ^ 400)%Z
+             (fun _ _ => None) toy_word is_space_ascii is_digit (tstate ex_hist_switch)
+             (L "a {count:2,sum:1,schema:0,zero_threshold:0,zero_count:0}") = Ok (st', out)
+        /\ st_name (tstate ex_hist_switch) = Some (os_name s)).
+Proof.
+  refine (conj _ _); [fin|]. refine (conj _ _); [fin|]. refine (conj _ _); [vm_compute; discriminate|].
+  refine (conj _ _); [fin|]. refine (conj _ _); [fin|].
+  refine (conj _ _); [eexists; eexists; vm_compute; reflexivity|].
+  eexists. eexists. eexists. split; [vm_compute; reflexivity|]. split; vm_compute; reflexivity.
+Qed.
 
 (* the state-level statements: a filled field, a clashing family in progress, an offending unit in progress *)
 Example C15b_state_hypotheses_nonvacuous :
@@ -1079,3 +1161,6 @@ Print Assumptions C15b_native_flag_needs_histogram.
 Print Assumptions C15b_sample_line_group_rejected_any_flag.
 Print Assumptions C15b_timestamps_two_lines_after_any_prefix.
 Print Assumptions C15b_foreign_sample_switches_family.
+Print Assumptions C15b_foreign_native_sample_rejected.
+Print Assumptions C15b_foreign_native_sample_document.
+Print Assumptions C15b_native_sample_attached_own_name.
